@@ -408,6 +408,9 @@ func (env *sqlEnv) eval(e *SQLExpr) SVal {
 		m, ok := env.argMaps[e.args[1].param]
 		a := env.eval(e.args[1])
 		if !ok {
+			if a.null.IsTrue() {
+				return SVal{v: tt.Bool(false), null: tt.Bool(true)}
+			}
 			// unknown JSON argument: containment over decoded maps is not enumerable
 			sqlFail("@> with a non-marshalled argument")
 		}
